@@ -76,6 +76,81 @@ func mkCircuit(nin int, gs []gGate) *circuit.Circuit {
 	return c
 }
 
+// c01WideInputs: the plain evaluator on input ARGUMENTS wider than a machine word, several arguments and compound
+// arguments, each value given once as a non-negative number and once as the negative number with the same two's
+// complement bits: Compute must return the truth-table bits in every case (and so must Garble + Eval).
+func c01WideInputs(out *ndWriter, rng *rand.Rand, base int) {
+	shapes := [][]int{{128}, {96, 32}, {65, 1, 70}, {64, 64}}
+	for si, widths := range shapes {
+		res := &Result{Case: base + si, Class: "wide-input-arguments", Nontrivial: true}
+		nin := 0
+		for _, w := range widths {
+			nin += w
+		}
+		var gs []gGate
+		ops := []string{"XOR", "XNOR", "AND", "OR", "INV"}
+		for k := 0; k < 40; k++ {
+			op := ops[rng.Intn(5)]
+			a, b := rng.Intn(nin+k), rng.Intn(nin+k)
+			if k < 12 {
+				a = nin - 1 - rng.Intn(70) // the high wires of the arguments
+			}
+			if op == "INV" {
+				b = a
+			}
+			gs = append(gs, gGate{op, a, b})
+		}
+		c := mkCircuit(nin, gs)
+		// argument structure: the first shape is one plain argument, the others one compound argument
+		if len(widths) > 1 {
+			arg := circuit.IOArg{Name: "in", Type: types.Info{Type: types.TStruct, IsConcrete: true, Bits: types.Size(nin)}}
+			for i, w := range widths {
+				arg.Compound = append(arg.Compound, circuit.IOArg{Name: fmt.Sprintf("m%d", i), Type: types.Info{Type: types.TInt, IsConcrete: true, Bits: types.Size(w)}})
+			}
+			c.Inputs = circuit.IO{arg}
+		}
+		for rep := 0; rep < 6; rep++ {
+			inp := make([]int, nin)
+			for i := range inp {
+				inp[i] = rng.Intn(2)
+			}
+			ofs := 0
+			var pos, neg []*big.Int
+			for _, w := range widths {
+				inp[ofs+w-1] = 1 // top bit set: the negative spelling exists
+				v := new(big.Int)
+				for i := 0; i < w; i++ {
+					if inp[ofs+i] == 1 {
+						v.SetBit(v, i, 1)
+					}
+				}
+				pos = append(pos, v)
+				neg = append(neg, new(big.Int).Sub(v, new(big.Int).Lsh(big.NewInt(1), uint(w))))
+				ofs += w
+			}
+			plain := plainEval(nin, gs, inp)
+			for vi, in := range [][]*big.Int{pos, neg} {
+				o, err := c.Compute(in)
+				if err != nil {
+					res.viol("compute-error", "Compute on arguments of %v bits: %v", widths, err)
+					break
+				}
+				for i := range gs {
+					if int(o[0].Bit(i)) != plain[nin+i] {
+						res.viol("compute:wide-arguments", "Compute on arguments of %v bits (%s spelling %v): output of gate %d (%s %d %d) is %d, truth table gives %d",
+							widths, []string{"non-negative", "negative"}[vi], in, i, gs[i].Op, gs[i].A, gs[i].B, o[0].Bit(i), plain[nin+i])
+						break
+					}
+				}
+			}
+			if len(res.Viol) > 0 {
+				break
+			}
+		}
+		out.put(res)
+	}
+}
+
 func sbit(l ot.Label) int {
 	if l.S() {
 		return 1
@@ -310,6 +385,7 @@ func c01Main(args []string) error {
 			out.put(res)
 			return nil
 		})
+		c01WideInputs(out, rng, 5000000)
 		out.put(map[string]interface{}{"case": -1, "nontrivial": false, "class": "summary", "sample": map[string]interface{}{"permute_tuples_observed": len(tuples)}})
 		return err
 	case "record":
